@@ -13,6 +13,7 @@
 use vstd::prelude::*;
 use vstd::arithmetic::div_mod::*;
 use vstd::arithmetic::mul::*;
+use vstd::std_specs::ops::*;
 verus! {
 global size_of usize == 8;
 
@@ -349,6 +350,44 @@ impl TransitionConstraints {
             r.main_constraint_degrees@ == context.main_transition_constraint_degrees@,
             r.aux_constraint_degrees@ == context.aux_transition_constraint_degrees@,
             r.divisor == from_transition_spec(context.trace_len as int, context.num_transition_exemptions as int),
+    {
+        /*@@body*/
+    }
+}
+
+// ---------------------------------------------------------------------------------------------------------------------
+// BoundaryConstraint::evaluate_at (air/src/air/boundary/constraint.rs): trace value minus asserted value, the asserted value
+// being the constant for a one-coefficient value polynomial and otherwise the value polynomial evaluated at x * offset
+// (offset = the inverse trace-domain generator raised to first_step, stored in poly_offset.1).
+pub uninterp spec fn poly_eval(p: Seq<B>, x: E) -> E;
+impl MulSpecImpl<E> for E {
+    open spec fn obeys_mul_spec() -> bool { true }
+    open spec fn mul_req(self, rhs: E) -> bool { true }
+    open spec fn mul_spec(self, rhs: E) -> E { e_mul(self, rhs) }
+}
+impl core::ops::Mul for E { type Output = Self; #[verifier::external_body] fn mul(self, rhs: Self) -> Self { unimplemented!() } }
+impl SubSpecImpl<E> for E {
+    open spec fn obeys_sub_spec() -> bool { true }
+    open spec fn sub_req(self, rhs: E) -> bool { true }
+    open spec fn sub_spec(self, rhs: E) -> E { e_sub(self, rhs) }
+}
+impl core::ops::Sub for E { type Output = Self; #[verifier::external_body] fn sub(self, rhs: Self) -> Self { unimplemented!() } }
+#[allow(non_camel_case_types)]
+pub struct polynom;
+impl polynom {
+    // contract of math::polynom::eval (an iterator fold: bounded stand-in poly_native): named, not interpreted
+    #[verifier::external_body]
+    pub fn eval(p: &Vec<B>, x: E) -> (r: E) ensures r == poly_eval(p@, x) { unimplemented!() }
+}
+pub struct BoundaryConstraint { pub column: usize, pub poly: Vec<B>, pub poly_offset: (usize, B), pub cc: E }
+impl BoundaryConstraint {
+    //@@ source air/src/air/boundary/constraint.rs
+    //@@ extract anchor="pub fn evaluate_at(&self, x: E, trace_value: E) -> E"
+    pub fn evaluate_at(&self, x: E, trace_value: E) -> (r: E)
+        requires self.poly.len() >= 1
+        ensures
+            self.poly.len() == 1 ==> r == e_sub(trace_value, e_from(self.poly@[0])),
+            self.poly.len() > 1 ==> r == e_sub(trace_value, poly_eval(self.poly@, e_mul(x, e_from(self.poly_offset.1)))),
     {
         /*@@body*/
     }
